@@ -69,10 +69,14 @@ def mat_diff(name, got, want, tol=1e-8):
     want_np = np.array(want.tolist(), dtype=float).reshape(want.shape)
     if got.shape != want_np.shape:
         return f"{name}: shape {got.shape}, expected {want_np.shape}"
+    # tolerance RELATIVE TO THE MAGNITUDE OF THE MATRIX (an absolute floor would make the comparison vacuous for the small-scale
+    # variants: entries of 1e-9 all "agree" within 1e-8)
+    mag = max(float(np.max(np.abs(want_np), initial=0.0)), float(np.max(np.abs(got), initial=0.0)))
     for i in range(want_np.shape[0]):
         for j in range(want_np.shape[1]):
-            if not close(got[i, j], want_np[i, j], tol):
-                return f"{name}[{i},{j}] = {float(got[i, j])!r}, expected {float(want_np[i, j])!r}"
+            g, w = float(got[i, j]), float(want_np[i, j])
+            if not (abs(g - w) <= tol * mag) and not (g == w):
+                return f"{name}[{i},{j}] = {g!r}, expected {w!r} (matrix magnitude {mag:.3g})"
     return None
 
 
